@@ -210,6 +210,7 @@ func (s *sampler) E(n int) string {
 
 // regression and realistic patterns (always first in the case list)
 var fixedPatterns = []string{
+	`(?<!(?:)+?)`, // regexp2 (fall-back engine) panics: index out of range
 	`[^]`, `^[^]$`, `[]`, `a[]`, `[^]{2}`, `a|[]`, `[^]*z`,
 	`^.$`, `^..$`, `^\s$`, `^\S$`, `^\w+$`, `^\W$`, `^\d$`, `\bé\b`, `\Bé\B`, `^[^\s]+$`, `^\s*$`, `^[\w.-]+$`, `^\S+$`,
 	`\uD83D\uDE00`, `^\uD83D\uDE00$`, `[\uD83D\uDE00]`, `\u{1F600}`, `^[\u{1F600}]$`, `\u{41}`, `\u{00000041}`, `\u{10FFFF}`,
